@@ -195,6 +195,13 @@ const (
 )
 
 var x int
+
+type Msg1 struct{ ID int ` + "`json:\"id\"`" + ` }
+type Msg2 struct{ ID int }
+type Msg3 struct{ *T ` + "`k:\"v\"`" + ` }
+type If1 interface{ M() }
+type Fn1 func(struct{ N int ` + "`n:\"1\"`" + ` }) struct{}
+
 var (
 	y, z   = 1, 2
 	w      []int
